@@ -509,6 +509,52 @@ def _examples_item(item, rec):
                  "expect": [ref[1] if ref[0] == "ok" else ["<loadable>"]]})
 
 
+
+def _independence_item(item, rec):
+    """column independence: a Time_Period column must load and render exactly as it does alone, whatever its sibling
+    Time_Period columns hold (nulls, other spellings) -- in memory and through an output folder"""
+    fmt, channel, spellings = item
+    V = harness.boot()
+    import pandas as pd
+    vals = [s for _, ss in sorted(spellings.items()) for s in ss]
+    alone = observe(channel, "measure", fmt, vals)
+    if alone[0] != "ok":
+        rec.case(("independence", fmt, channel, "alone-fails"), "alone-fails", nontrivial=False)
+        return
+    sib_patterns = {"all-null": [None] * len(vals), "alternating-null": [None if i % 2 else "2020-Q1" for i in range(len(vals))],
+                    "never-null": ["2020Q%d" % (i % 4 + 1) for i in range(len(vals))]}
+    structs = harness.structures(harness.structure("DS_1", [harness.comp("Id_1", "Integer", "Identifier"), harness.comp("Me_1", "Time_Period", "Measure"),
+                                                            harness.comp("Me_2", "Time_Period", "Measure")]))
+    for pname, sib in sib_patterns.items():
+        df = pd.DataFrame({"Id_1": list(range(len(vals))), "Me_1": pd.Series(vals, dtype="object"), "Me_2": pd.Series(sib, dtype="object")})
+        kw = {"time_period_output_format": fmt}
+        if channel == "csv":
+            _N[0] += 1
+            d = os.path.join(harness.scratch(), "c21i-%d-%d" % (os.getpid(), _N[0]))
+            os.makedirs(d, exist_ok=True)
+            kw["output_folder"] = d
+        o = harness.call(V.run, "DS_r <- DS_1;", structs, {"DS_1": df}, **kw)
+        got = {}
+        if o[0] == "ok":
+            if channel == "csv":
+                with open(os.path.join(d, "DS_r.csv"), newline="", encoding="utf-8") as f:
+                    for r in csv.DictReader(f):
+                        got[int(r["Id_1"])] = r["Me_1"]
+            else:
+                data = o[1]["DS_r"].data
+                for k, v in zip(data["Id_1"].tolist(), data["Me_1"].tolist()):
+                    got[int(k)] = harness.canon_value(v)
+        bad = [(vals[i], alone[1][i], got.get(i)) for i in range(len(vals))
+               if o[0] != "ok" or (not isinstance(alone[1][i], tuple) and got.get(i) != alone[1][i])]
+        rec.case(("independence", fmt, channel, pname, not bad), "same-as-alone" if not bad else "differs-from-alone",
+                 sample={"format": fmt, "channel": channel, "sibling": pname, "values": vals[:6]})
+        if bad:
+            _report(rec, "C21:load:two-time-period-columns:sibling-%s:%s:differs-from-single-column" % (pname, "output-folder" if channel == "csv" else "memory"),
+                    "DS_r <- DS_1 with a second Time_Period measure (%s), format %s, %s: %s" % (
+                        pname, fmt, channel, "run fails: %s" % (o[1:4],) if o[0] != "ok" else "value %r renders %r, alone it renders %r" % (bad[0][0], bad[0][2], bad[0][1])),
+                    {"independence": [fmt, channel], "spellings": spellings})
+
+
 def _dispatch(item, rec):
     if item[0] == "examples":
         _examples_item(item[1:], rec)
@@ -554,6 +600,21 @@ class Check:
         heavy = harness.seeded_order([i for i in items if i[0] == "D"], seed)
         light = harness.seeded_order([i for i in items if i[0] != "D"], seed)
         harness.pmap(_dispatch, heavy + light, rec)
+        # one period per indicator in every documented spelling (from the docs table) next to a sibling Time_Period column
+        base = {"A": (2020, 1), "S": (2020, 2), "Q": (2020, 3), "M": (2020, 1), "W": (2020, 7), "D": (2020, 61)}
+        spellings = {}
+        for ind, (y, n) in base.items():
+            texts = []
+            for label, fn in spell.get(ind, []):
+                try:
+                    texts.append(fn((ind, y, n)))
+                except Exception:
+                    pass
+            spellings[ind] = [t for t in texts if isinstance(t, str)]
+        if sum(len(v) for v in spellings.values()) >= 6:
+            harness.pmap(_independence_item, [(f, ch, spellings) for f in FORMATS for ch in ("memory", "csv")], rec)
+        else:
+            rec.tool_error("could not instantiate the documented spellings for the column-independence space: %s" % spellings)
         # the example kept for a key must not depend on which worker finished first: dataset-in-memory examples first
         rec.violations.sort(key=lambda v: (v["key"], "channel memory" not in v["what"], "period as measure" not in v["what"], v["what"]))
         years = _years(tier)
